@@ -110,19 +110,20 @@ def rule_e(prog, rep):
     I = Interp(prog, hints.param_types_for("ccubes"), hints.FIELD_TYPES)
     I.run(fi)
     where = fi.fq
-    st = [e for e in I.events if e.kind == "store_sub" and e["base"] == tm.param("region")]
+    REGION = tm.param([a for a in fi.params() if a not in ("self", "cls")][0])  # first parameter, whatever its name
+    st = [e for e in I.events if e.kind == "store_sub" and e["base"] == REGION]
     if len(st) != 1 or not st[0].loops:
         rep.undecided("R-C02-e", where, "differencing store", "expected one store into the region inside the per-axis loop")
         return
     e = st[0]
     v = e["value"]
     ok = v.op == "binop" and v.args[0] == "-"
-    lhs_margin = ok and v.args[1].op == "sub" and v.args[1].args[0] == tm.param("region")
-    rhs_sum = ok and v.args[2].op == "call" and tm.callee_name(v.args[2]) in (".sum", "numpy.sum") and tm.contains(v.args[2], lambda x: x.op == "sub" and x.args[0] == tm.param("region"))
+    lhs_margin = ok and v.args[1].op == "sub" and v.args[1].args[0] == REGION
+    rhs_sum = ok and v.args[2].op == "call" and tm.callee_name(v.args[2]) in (".sum", "numpy.sum") and tm.contains(v.args[2], lambda x: x.op == "sub" and x.args[0] == REGION)
     rep.check(bool(ok and lhs_margin and rhs_sum), "R-C02-e", where, "common slice := margin slice - sum(uncommon slice)", "", "the written value is %s" % tm.show(v)[:100])
     if ok and lhs_margin and rhs_sum:
         margin_idx = v.args[1].args[1]
-        unc = [x for x in tm.walk(v.args[2]) if x.op == "sub" and x.args[0] == tm.param("region")][0].args[1]
+        unc = [x for x in tm.walk(v.args[2]) if x.op == "sub" and x.args[0] == REGION][0].args[1]
         axis_kw = tm.kwarg(v.args[2], "axis")
         m_ok = tm.contains(margin_idx, lambda x: tm.is_const(x, -1))
         u_ok = tm.contains(unc, lambda x: x.op == "call" and tm.callee_name(x) == "builtins.slice" and x.args[1] == (tm.NONE, tm.const(-1)))
